@@ -1,6 +1,6 @@
 (* C10 — validated trees never hit unresolved names or arity errors at run time. Property theorems only. *)
 Require Import ZArith NArith Bool List Arith Lia. Import ListNotations.
-Require Import F64 Dec Types Generic Lang Opt IO OptFacts OptFacts4 ValidFacts GenArity.
+Require Import F64 Dec Types Generic Lang Opt IO OptFacts OptFacts4 ValidFacts GenArity GenStruct.
 
 (* accepted by check_variables_and_functions => execute never fails with UndefinedVariable / FunctionNotFound,
    for every tree and every coherent environment *)
@@ -43,3 +43,11 @@ Example C10_example : let E := mk_env [([120%N], VBool true)] [([102%N], (KEcho,
   check_names E (ETer TernaryCondition (EVar [120%N]) (ECall [102%N] [EVar [120%N]]) (EArr [ECall [102%N] [ELit (VBool true); EVar [120%N]]])) = None /\
   check_names E (ECall [102%N] []) = Some (Generic.ParamCountMismatch [102%N] 0) /\ check_names E (EUn Not (EVar [121%N])) = Some (Generic.MissingVariable [121%N]).
 Proof. vm_compute. auto. Qed.
+
+(* tie (a): the walk of check_variables_and_functions is the one in the source today (arms in source order; every child is visited, in order; a variable must exist;
+   a call must exist with its argument count, else the error names it), regenerated on every run *)
+Theorem C10_validator_arms_are_the_codes :
+  gen_check_names_arms = [(NUnary, GNone, VRecRight); (NBinary, GNone, VRecLeftThenRight); (NTernary, GNone, VRecLeftThenMiddleThenRight); (NArray, GNone, VRecAllInOrder);
+                          (NVariable, GNone, VVariableExistsElseMissingVariable); (NCall, GNone, VCallExistsThenParamsElseNamedError); (NLiteral, GNone, VOk)] /\
+  gen_check_expressions_as_modelled = true.
+Proof. split; reflexivity. Qed.
